@@ -94,7 +94,10 @@ def build(force=False):
                 st["assumptions"][v] = parse_assumptions(out2) if rc2 == 0 else {"error": out2[-2000:]}
         st["audit"] = audit()
         # 3. extraction + OCaml drivers
-        odir = os.path.join(BUILD, "ocaml")
+        # built in a scratch directory and swapped in by renames, so that a check running at the same time never finds the
+        # drivers missing
+        final_odir = os.path.join(BUILD, "ocaml")
+        odir = os.path.join(BUILD, "ocaml.tmp-%d" % os.getpid())
         shutil.rmtree(odir, ignore_errors=True)
         os.makedirs(odir)
         rc, out = sh(["timeout", "600", "coqc", "-Q", COQ, "ADF", os.path.join(COQ, "Generated", "ExtractAll.v")], cwd=odir)
@@ -110,6 +113,14 @@ def build(force=False):
             if os.path.exists(os.path.join(odir, "adfm.ml")):
                 rc, out = sh(["ocamlfind", "ocamlopt", "-w", "-a", "model.mli", "model.ml", "zconv.ml", "adfm.ml", "-o", "adfm"], cwd=odir)
                 st["stages"]["ocaml_adfm"] = {"rc": rc, "log": out[-4000:]}
+        old_odir = os.path.join(BUILD, "ocaml.old-%d" % os.getpid())
+        shutil.rmtree(old_odir, ignore_errors=True)
+        if os.path.exists(final_odir):
+            os.rename(final_odir, old_odir)
+        os.rename(odir, final_odir)
+        shutil.rmtree(old_odir, ignore_errors=True)
+        for stale in glob.glob(os.path.join(BUILD, "ocaml.tmp-*")) + glob.glob(os.path.join(BUILD, "ocaml.old-*")):
+            shutil.rmtree(stale, ignore_errors=True)
         st["wall_s"] = time.time() - t0
         json.dump(st, open(stamp, "w"), indent=1)
         return st
